@@ -251,7 +251,7 @@ class Ctx:
 
 class Explorer:
     def __init__(self, fn, init=None, on_event=None, on_edge=None, on_exit=None,
-                 calls=None, track=None, atom_key=None, cap=60000, entry_env=None):
+                 calls=None, track=None, atom_key=None, cap=60000, entry_env=None, pure=()):
         """
         fn        Function
         init      initial user state (hashable)
@@ -273,6 +273,7 @@ class Explorer:
         self.atom_key = atom_key
         self.cap = cap
         self.entry_env = entry_env or {}
+        self.pure = set(pure)
         self.reports = {}
         self.nstates = 0
         self.nedges = 0
@@ -468,6 +469,14 @@ class Explorer:
                         and akey and isinstance(akey[-1], frozenset):
                     return None
         new = dict(env)
+        if atom[0] == 'truthy' and self.pure:
+            pc = self.resolve_call(atom[1], env)
+            if pc is not None and pc.get('callee') in self.pure:
+                pk = ('pure', pc['callee'], ','.join(estr(a) for a in pc['args']))
+                prev = env.get(pk)
+                if isinstance(prev, bool) and prev != sense:
+                    return None
+                new[pk] = sense
         if atom[0] == 'truthy':
             e = atom[1]
             if e.get('k') == 'call':
